@@ -61,7 +61,7 @@ func TestVfC15Listeners(t *testing.T) {
 		// fresh subnets for this case
 		subA := fmt.Sprintf("127.%d.%d.", 30+(n/250)%20, n%250)
 		subB := fmt.Sprintf("127.%d.%d.", 50+(n/250)%10, n%250)
-		kind := rapid.SampledFrom([]string{"udp", "tcp-queries", "tls-queries", "gnet-queries", "tcp-conns", "gnet-conns", "tls-conns", "quic-conns", "http-v4", "http-v6"}).Draw(t, "flood")
+		kind := rapid.SampledFrom([]string{"udp", "tcp-queries", "tls-queries", "gnet-queries", "tcp-conns", "gnet-conns", "tls-conns", "quic-conns", "http-conns", "http-v4", "http-v6"}).Draw(t, "flood")
 		hostA := rapid.IntRange(1, 120).Draw(t, "hostA")
 		label := fmt.Sprintf("c%dp%d", n, pid)
 		mkName := func(who string, i int) vfkit.Name {
@@ -86,6 +86,7 @@ func TestVfC15Listeners(t *testing.T) {
 		// the flood
 		start := time.Now()
 		admitted, refused, other := 0, 0, 0
+		costPerAdmitted := 1 // what one admitted query of the flood costs at least (connection costs are counted where every query has its own connection)
 		var refusedNames []vfkit.Name
 		N := 3 * burst
 		switch kind {
@@ -240,6 +241,27 @@ func TestVfC15Listeners(t *testing.T) {
 			}
 			fwg.Wait()
 			lastOwnSubnetUse = time.Now()
+		case "http-conns":
+			// a fresh connection per request: the connection (3) is charged to the peer's subnet, the query (2) to the
+			// subnet named in the header - here the same one
+			N = 40
+			costPerAdmitted = 5
+			for i := 0; i < N; i++ {
+				src := subA + itoa(1+(hostA+i)%250)
+				c := NewDoHClient("http", src, fmt.Sprintf("%s:%d", pip, ListenerPorts["http"]), nil)
+				// the header names the peer itself (a listener with client_addr_header takes the client from the header only;
+				// without the header the client counts as unknown and is not limited per query)
+				r, err := c.Do("POST", Query(uint16(1000+i), mkName("flood", i), 1, 1, false), map[string]string{"X-Real-IP": src})
+				c.Close()
+				switch {
+				case err != nil || r.Status == 503:
+					refused++
+				case r.Status == 200 && r.Msg.Rcode() == 0:
+					admitted++
+				default:
+					other++
+				}
+			}
 		case "http-v4", "http-v6":
 			a := NewAsker(pip, "")
 			N = 70
@@ -291,8 +313,8 @@ func TestVfC15Listeners(t *testing.T) {
 		if byRefused.Load() > 0 {
 			t.Fatalf("a client in the listener's own /24 (%s201) was refused although only subnet %s0/24 sent traffic: connection costs are not charged to the client's subnet; %s", block, subA, desc)
 		}
-		if float64(admitted) > float64(burst)+float64(limit)*window+2 {
-			t.Fatalf("flooding subnet got %d queries admitted in %.3fs, more than burst %d + rate %d x window; %s", admitted, window, burst, limit, desc)
+		if float64(admitted*costPerAdmitted) > float64(burst)+float64(limit)*window+2+float64(costPerAdmitted) {
+			t.Fatalf("flooding subnet got %d queries (cost %d each) admitted in %.3fs, more than burst %d + rate %d x window; %s", admitted, costPerAdmitted, window, burst, limit, desc)
 		}
 		// refused queries are never forwarded
 		time.Sleep(2 * time.Millisecond)
